@@ -381,6 +381,30 @@ def run(ctx):
                                   'changes) are decoded with the first step\'s value' % (norm(firsts[0]), firsts[0].value.id)))
         else:
             ctx.ok('R-PERSTEP', 'TFLAG branch', wgt_, 'per-step arrays %s are only used element-wise' % sorted(perstep))
+    # ---- R-CALSRC: the calendar (and units) of the CF branch are read from the time variable itself
+    ctx.rule('R-CALSRC', "getTimes: the calendar and units attributes are read from the variable 'time' before that name is re-bound (to the bounds variable or an array of edges)")
+    ncal = 0
+    for st in iter_stmts(gt_.body):
+        if not (isinstance(st, ast.Assign) and len(st.targets) == 1 and isinstance(st.targets[0], ast.Name)):
+            continue
+        reads = [c for c in walk_expr(st.value) if (isinstance(c, ast.Call) and dotted(c.func) == 'getattr' and len(c.args) >= 2 and const_str(c.args[1]) in ('calendar', 'units') and isinstance(c.args[0], ast.Name))
+                 or (isinstance(c, ast.Attribute) and c.attr in ('calendar', 'units') and isinstance(c.value, ast.Name) and isinstance(c.ctx, ast.Load))]
+        for c in reads:
+            obj = c.args[0].id if isinstance(c, ast.Call) else c.value.id
+            what = const_str(c.args[1]) if isinstance(c, ast.Call) else c.attr
+            defs = [s2 for s2 in iter_stmts(gt_.body) if isinstance(s2, ast.Assign) and any(isinstance(t, ast.Name) and t.id == obj for t in s2.targets) and s2.lineno < st.lineno]
+            first = [s2 for s2 in defs if isinstance(s2.value, ast.Subscript) and norm(s2.value.value) == 'self.variables' and const_str(s2.value.slice) == 'time']
+            if not first:
+                continue
+            ncal += 1
+            later = [s2 for s2 in defs if s2.lineno > first[-1].lineno]
+            if later:
+                ctx.violation(Finding('R-CALSRC', FILES, 'PseudoNetCDFFile.getTimes', st, "the %s attribute is read from %s after that name was re-bound (%s): with bounds=True it is looked up on the "
+                                      "bounds variable or on a plain array, which do not carry it, and the default (gregorian) is used for a 365-day or 360-day file" % (what, obj, norm(later[0])[:60])),
+                              oid=what)
+            else:
+                ctx.ok('R-CALSRC', what, wgt_, "read from self.variables['time'] before any re-binding of %s" % obj)
+    ctx.floor('calendar / units reads judged by R-CALSRC', ncal, 2)
     # ---- R-FENCEPOST: a mean step is (last - first) / (count - 1)
     ctx.rule('R-FENCEPOST', '(x[-1] - x[0]) is divided by the number of intervals, len(x) - 1')
     nfp = 0
